@@ -1,0 +1,139 @@
+//go:build verif
+
+package orefafs
+
+import (
+	"fmt"
+	"sort"
+)
+
+// VerifCheck compares the path index with the tree formed by the children maps and returns
+// a description of every structural inconsistency found. It takes no locks and must only
+// be called while no other goroutine uses the file system.
+func (vfs *OrefaFS) VerifCheck(rootKey string) []string {
+	var out []string
+
+	sep := string(vfs.PathSeparator())
+	reach := map[string]*node{}
+	refs := map[*node][]string{}
+	seenDirs := map[*node]string{}
+	budget := 100000
+
+	root, ok := vfs.nodes[rootKey]
+	if !ok || root == nil {
+		return []string{fmt.Sprintf("no root node under key %q", rootKey)}
+	}
+
+	var walk func(path string, nd *node)
+
+	walk = func(path string, nd *node) {
+		if budget <= 0 {
+			return
+		}
+
+		budget--
+
+		if prev, seen := seenDirs[nd]; seen {
+			out = append(out, fmt.Sprintf("directory node reachable as %q and %q", prev, path))
+
+			return
+		}
+
+		seenDirs[nd] = path
+
+		keys := make([]string, 0, len(nd.children))
+		for k := range nd.children {
+			keys = append(keys, k)
+		}
+
+		sort.Strings(keys)
+
+		for _, k := range keys {
+			p := path + sep + k
+			c := nd.children[k]
+
+			if c == nil {
+				out = append(out, fmt.Sprintf("nil entry %q", p))
+
+				continue
+			}
+
+			if k == "" || k == "." || k == ".." {
+				out = append(out, fmt.Sprintf("invalid entry name %q in %q", k, path))
+			}
+
+			reach[p] = c
+			refs[c] = append(refs[c], p)
+
+			if c.mode.IsDir() {
+				walk(p, c)
+			} else if len(c.children) != 0 {
+				out = append(out, fmt.Sprintf("non-directory %q has children", p))
+			}
+		}
+	}
+
+	reach[rootKey] = root
+	walk(rootKey, root)
+
+	if budget <= 0 {
+		out = append(out, "walk budget exhausted: cycle or unbounded tree")
+	}
+
+	idx := make([]string, 0, len(vfs.nodes))
+	for p := range vfs.nodes {
+		idx = append(idx, p)
+	}
+
+	sort.Strings(idx)
+
+	for _, p := range idx {
+		nd, found := reach[p]
+		if !found {
+			out = append(out, fmt.Sprintf("index holds %q which is not reachable through children maps", p))
+
+			continue
+		}
+
+		if nd != vfs.nodes[p] {
+			out = append(out, fmt.Sprintf("index and children map disagree on the node of %q", p))
+		}
+	}
+
+	rp := make([]string, 0, len(reach))
+	for p := range reach {
+		rp = append(rp, p)
+	}
+
+	sort.Strings(rp)
+
+	for _, p := range rp {
+		if _, found := vfs.nodes[p]; !found {
+			out = append(out, fmt.Sprintf("%q reachable through children maps but missing from the index", p))
+		}
+	}
+
+	type ref struct {
+		nd    *node
+		paths []string
+	}
+
+	rs := make([]ref, 0, len(refs))
+	for nd, paths := range refs {
+		rs = append(rs, ref{nd, paths})
+	}
+
+	sort.Slice(rs, func(i, j int) bool { return rs[i].paths[0] < rs[j].paths[0] })
+
+	for _, r := range rs {
+		if r.nd.mode.IsDir() {
+			continue
+		}
+
+		if r.nd.nlink != len(r.paths) {
+			out = append(out, fmt.Sprintf("file node %v has nlink %d but %d entries", r.paths, r.nd.nlink, len(r.paths)))
+		}
+	}
+
+	return out
+}
